@@ -28,7 +28,6 @@ warnings.filterwarnings("ignore")
 
 REASON_FOCUS = {
     1: "inherited:C15-class-scope-lookup",
-    2: "tuple-target-as-keyword",
     3: "header-expression",
     4: "comprehension-first-iterable",
     5: "def-name-absent",
@@ -101,33 +100,8 @@ def structural_focus(o, v):
     """explanation of a verdict from structural facts alone (no Coq): stray offsets, exceptions, skipped tokens"""
     src = o.src
     by_id = {t.id: t for t in o.tokens}
-    if v["kind"] == "stray":
-        q = by_id[v["query"]]
-        ok = True
-        for off in v["offsets"]:
-            after = src[off + len(q.name):off + len(q.name) + 1]
-            if not (src[off:off + len(q.name)] == q.name and after in ("'", '"')
-                    and q.name.lower() in ("f", "b", "r", "u", "rb", "br", "fr", "rf")):
-                ok = False
-        return "string-prefix-as-occurrence" if ok else None
-    if v["kind"] == "exception":
-        if v["exc"] == "EXC:IndexError" and not src.endswith("\n"):
-            last = src.rsplit("\n", 1)[-1]
-            m = re.match(r"\s*from\s+\S+\s+import\s+(.*)$", last)
-            if m and re.search(r"(\w+)$", last):
-                return "from-import-at-eof"
-        return None
-    for i in [v["query"]] + list(v["tokens"]):
-        if i in o.skip:
-            r = o.skip[i]
-            return "tuple-target-as-keyword" if r.startswith("kwlike-") else r
-    for i in [v["query"]] + list(v["tokens"]):
-        t = by_id[i]
-        if t.kind == "KImportMod":
-            for n in ast.walk(o.info.tree):
-                if isinstance(n, ast.Import) and n.col_offset > 0 and n.lineno <= t.line <= n.end_lineno \
-                        and any(a.asname and a.name.split(".")[0] == t.name for a in n.names):
-                    return "indented-import-module-as-variable"
+    if v["kind"] in ("stray", "exception"):
+        return None             # nothing inside strings / comments may be reported, and no query may raise
     for i in v["tokens"]:
         if o.cat[i] == "kw" and o.key[i] == "U":
             return "kwarg-unresolved-callee"
@@ -186,6 +160,8 @@ def patchedast_fails(src):
 def signature(obj):
     if obj.get("kind") == "history":
         return "answer-depends-on-query-history"
+    if obj.get("kind") == "project":
+        return obj.get("focus") or None
     if obj.get("kind") != "module":
         return None
     return obj.get("focus") or None
@@ -372,19 +348,10 @@ def check_projects(ctx, n):
         for v in verdicts:
             o = obs[v["module"]]
             focus = None
-            if v["kind"] == "stray":
-                src_of = files
-                ok = all(src_of[m][off:off + 1 + len(by_tok(o, v["query"]).name)][-1:] in ("'", '"')
-                         and by_tok(o, v["query"]).name in ("f", "b", "r", "u") for (m, off) in v["offsets"])
-                focus = "string-prefix-as-occurrence" if ok else None
-            elif v["kind"] == "exception":
-                focus = structural_focus(o, dict(v)) if v["exc"] == "EXC:IndexError" else None
+            if v["kind"] in ("stray", "exception"):
+                focus = None
             else:
                 involved = [(v["module"], v["query"])] + list(v["tokens"])
-                for (m, i) in involved:
-                    if i in obs[m].skip:
-                        r = obs[m].skip[i]
-                        focus = "tuple-target-as-keyword" if r.startswith("kwlike-") else r
                 if focus is None:
                     inv2 = list(involved)
                     for (m, i) in involved:
@@ -396,6 +363,8 @@ def check_projects(ctx, n):
                         focus = REASON_FOCUS.get(rs[0])
                         if rs[0] == 3 and any(reasons[m].get(i) == 3 and class_env(obs[m], by_tok(obs[m], i)) for (m, i) in inv2):
                             focus = "header-class-attribute"
+                if focus is None and same_line_homonym(obs, keys, involved):
+                    focus = "imported-name-same-line-homonym"
                 if focus is None:
                     for (m, i) in involved:
                         t = by_tok(obs[m], i)
@@ -417,10 +386,31 @@ def check_projects(ctx, n):
             elif focus.startswith("inherited:"):
                 ctx.count(focus)
             else:
-                ctx.violation({"kind": "module", "src": files["mod_under_test.py"], "focus": focus, "stream": "multi"},
+                ctx.violation({"kind": "project" if focus == "imported-name-same-line-homonym" else "module",
+                               "files": files, "src": files["mod_under_test.py"], "focus": focus, "stream": "multi"},
                               "known departure: " + focus)
         if ctx.too_many():
             return
+
+
+def same_line_homonym(obs, keys, involved):
+    """one of the tokens is an import of lib.X (or lib's own module-level X) and another is a token of lib spelled X that
+    denotes a different binding one of whose binding tokens stands on a line where the module-level X is bound too
+    (same_pyname compares definition locations by line)"""
+    lib = obs[L.LIBNAME]
+    lines = {}
+    for t in lib.tokens:
+        if t.kind in ("KStore", "KParam", "KDefName", "KClassName", "KExceptName", "KAlias", "KImportName"):
+            lines.setdefault(keys[(L.LIBNAME, t.id)], set()).add(t.line)
+    ks = {keys[k] for k in involved}
+    for k1 in ks:
+        if not (isinstance(k1, tuple) and len(k1) == 3 and k1[0] == L.LIBNAME and k1[1] == ("var", ())):
+            continue
+        for k2 in ks:
+            if isinstance(k2, tuple) and len(k2) == 3 and k2[0] == L.LIBNAME and k2[2] == k1[2] and k2 != k1 \
+                    and lines.get(k1, set()) & lines.get(k2, set()):
+                return True
+    return False
 
 
 def by_tok(o, i):
